@@ -109,6 +109,14 @@ def update_case(name, backward=True):
         return c
     pre = r["pre"]
     n = len(pre)
+    # the stated domain assumption (alternate's first step not shorter than the primary's at a split node) has to cover the graph the real
+    # construction produced; if it does not, the claims below say nothing about the real graph: inconclusive, not a verdict either way
+    off = [i for i, e in enumerate(pre) if e["idx_next_alt"] != 0 and isinstance(e["time_to_next"], (int, float)) and isinstance(pre[e["idx_next_alt"]]["time_to_next"], (int, float))
+           and pre[e["idx_next_alt"]]["time_to_next"] < e["time_to_next"] - 1e-9]
+    if off:
+        c = Case(f"update_times_{name}", "C15", None, None, [], lambda S: [], [], bounds={"scenario": name})
+        c.broken = f"scenario {name}: the constructed graph lies outside the stated domain (alternate's first step shorter than the primary's at split node(s) {off})"
+        return c
     recv = [node_tmpl(e, i) for i, e in enumerate(pre)]
     ws = walks(pre)
 
@@ -221,8 +229,6 @@ def update_case(name, backward=True):
         # the real graph has to lie inside the domain the durations above are quantified over (and the property asks for it directly)
         Claim("the step durations construction produced for this scenario are finite and non-negative",
               lambda c: all(isinstance(e["time_to_next"], (int, float)) and e["time_to_next"] >= 0 for e in pre), when="any", role="constructed_durations_nonneg"),
-        Claim("in the graph construction produced, an alternate's first step is not shorter than the primary's at every split node (the stated domain assumption)",
-              lambda c: all(pre[e["idx_next_alt"]]["time_to_next"] >= e["time_to_next"] - 1e-9 for e in pre if e["idx_next_alt"] != 0), when="any", role="constructed_split_assumption"),
     ]
     if start_split and backward:
         claims.insert(3, Claim("scheduled time = primary predecessor's time + duration on the edge out of the start node", primary_equation_on(lambda p: p == 1), role="start_split_primary_equation"))
